@@ -109,9 +109,13 @@ class Corpus:
         os.makedirs(self.out)
         self.meta = json.load(open(os.path.join(VERIF, "corpus", "kernels", "META.json")))
         self.programs = {}
+        self.rule_level_only = {}
         for f in sorted(glob.glob(os.path.join(VERIF, "corpus", "kernels", "*.eql"))):
             name = os.path.basename(f)[:-4]
             shutil.copy(f, os.path.join(self.src, name + ".eql"))
+            if self.meta.get(name, {}).get("rule_level_only"):
+                self.rule_level_only[name] = {"kind": "kernel"}      # compiled with the corpus, but not part of the state-level lemmas
+                continue
             self.programs[name] = {"kind": "kernel"}
         if want_random:
             import gen
@@ -140,11 +144,11 @@ class Corpus:
         p = sh([eqlog_exe, self.src, self.out], timeout=600)
         if p.returncode != 0:
             raise Inconclusive("the compiler rejects or crashes on the corpus:\n" + (p.stdout + p.stderr)[-2000:])
-        for name in self.programs:
+        for name, d in list(self.programs.items()) + list(self.rule_level_only.items()):
             rs = os.path.join(self.out, M.snake(name) + ".eql.rs")
             if not os.path.exists(rs):
                 raise Inconclusive("no generated module for " + name)
-            self.programs[name].update(rs=rs, eql=os.path.join(self.src, name + ".eql"), rs_sha=sha(rs))
+            d.update(rs=rs, eql=os.path.join(self.src, name + ".eql"), rs_sha=sha(rs))
 
     def add_repo_theories(self, scratch, eqlog_exe):
         """thorough tier: the repository's own test theories (those the reference parser covers) join the corpus at U = 2"""
